@@ -2,7 +2,7 @@ SPECIFICATION SeamSpec
 CONSTANTS
   Sess = {"s1"}
   Reqs = {"r1"}
-  Gets = {"g1","g2","g3"}
+  Gets = {"g1","g2"}
   Cfgs <- CfgStorePrime
   MaxEmit = 2
   MaxSreq = 0
